@@ -70,6 +70,11 @@ def plan(fn: Any, mod: Any = None) -> tuple[list[Param], str]:
                 params.append(Param(p.name, "number", dims.ONE, None, pos))
             elif ann == "<class 'int'>" or ann.startswith("int |"):
                 params.append(Param(p.name, "int", dims.ONE, None, pos))
+            elif ann == "<class 'symplyphysics.core.symbols.probability.Probability'>":
+                prm = Param(p.name, "number", dims.ONE, None, pos)
+                prm.m0 = prm.m0 / 5  # inside [0, 1]; scaled deviations that leave it are refused
+                prm.wrap = "Probability"
+                params.append(prm)
             elif p.default is not p.empty:
                 params.append(Param(p.name, "default", None, None, pos))
             elif mod is not None and _shape(p.annotation) is not None and _has_q(_shape(
@@ -199,6 +204,9 @@ def realise_param(p: Param, scale: float = 1.0, spelling: str = "si") -> Any:
     if p.kind == "quantity":
         return quantity(p.dim, m, spelling)
     if p.kind == "number":
+        if getattr(p, "wrap", "") == "Probability":
+            from symplyphysics.core.symbols.probability import Probability
+            return Probability(m)
         return m
     if p.kind == "int":
         return max(1, int(round(2 + p.pos)))
